@@ -69,6 +69,7 @@ INFO = {
         '300 s later is reported as a fact (lingering)',
     ],
 }
+INFO['rule'] += ' Later additions: 30 % of the reconnect cases keep the server unreachable (refused / black-holed) for the first 1-3 reconnect attempts.'
 
 SIMPLE_NET = {'base_ms': 5, 'jitter_ms': 0, 'segmentation': 'whole', 'coalesce': True}
 OWN = 'alice'
